@@ -51,7 +51,8 @@ def ob_step(a: int, b: int, c: int, hold: int) -> bool:
             assume(hold > 0)
     else:
         hold = None
-    w = S.in_state(state, dict(P.get('cfg', {})), hold=hold, closing=P.get('closing', False))
+    w = S.in_state(state, dict(P.get('cfg', {})), hold=hold, closing=P.get('closing', False),
+                   old_closed=P.get('old_closed', False), old_closing=P.get('old_closing', False))
     SC.inject(w, ev, a, b, c)
     cover('stepped')
     return reconnect_pending(w)
@@ -189,6 +190,19 @@ def obligations(tier, seed):
                 continue
             out.append(ob('C02/pending/%s/%s' % (S.STATE_NAMES[state], ev), 'ob_step', {'state': state, 'ev': ev},
                           covers=['stepped'], cap=120))
+    # the same with an earlier connection in the history: finished (the FSM still refers to its protocol object) or
+    # still closing
+    for state, evs in SC.EVENTS_BY_STATE.items():
+        for ev in evs:
+            if ev == 'manual_stop':
+                continue
+            if quick and state not in (S.IDLE, S.CONNECT) and ev not in ('holdt', 'notif', 'peer_close', 'hdr_type', 'open_badver'):
+                continue
+            out.append(ob('C02/pending-after-earlier-connection/%s/%s' % (S.STATE_NAMES[state], ev), 'ob_step',
+                          {'state': state, 'ev': ev, 'old_closed': True}, covers=['stepped'], cap=120))
+            if state != S.IDLE:
+                out.append(ob('C02/pending-earlier-connection-closing/%s/%s' % (S.STATE_NAMES[state], ev), 'ob_step',
+                              {'state': state, 'ev': ev, 'old_closing': True}, covers=['stepped'], cap=120))
     out.append(ob('C02/pending/IDLE/close_done', 'ob_step', {'state': S.IDLE, 'ev': 'close_done', 'closing': True},
                   covers=['stepped']))
     k = 3 if quick else 4
